@@ -31,6 +31,12 @@ impl World {
         if f[0] == "e.reload" {
             return self.ew.reload_scratch(&self.rt);
         }
+        if f[0] == "conc.run" { return crate::c20::conc_run(&unesc(f[1])); }
+        if f[0] == "conc.disc" { return if crate::c20::balanced_increasing(&f[2].split(',').map(|s| s.to_string()).collect::<Vec<_>>()) { "disciplined".into() } else { "undisciplined".into() }; }
+        if f[0] == "conc.explore" {
+            let ok = f[2].split(';').all(|p| crate::c20::balanced_increasing(&p.split(',').map(|s| s.to_string()).collect::<Vec<_>>()));
+            return if ok || f[1] != "fair" { "no-deadlock".into() } else { "deadlock".into() };
+        }
         if f[0] == "fs.crash" {
             return crate::enf::fs_crash(&self.rt, &dec_lists(f[1]), &dec_lists(f[2]), f[3].parse().unwrap());
         }
